@@ -197,6 +197,7 @@ func (s *mvSess) open(kv map[string]string) (string, error) {
 	basesz := kvInt(kv, "basesz", 10<<20)
 	comp := kvInt(kv, "comp", 0)
 	memsz := kvInt(kv, "memsz", 1<<20)
+	vlogpct := kvInt(kv, "vlogpct", 0) // percent; > 0 enables dynamic value thresholds
 	s.dir = ""
 	var opt badger.Options
 	if s.inmem {
@@ -220,6 +221,9 @@ func (s *mvSess) open(kv map[string]string) (string, error) {
 		opt = opt.WithCompression(options.None)
 	}
 	opt = opt.WithBlockCacheSize(1 << 20).WithIndexCacheSize(0)
+	if vlogpct > 0 {
+		opt = opt.WithVLogPercentile(float64(vlogpct) / 100)
+	}
 	var err error
 	if s.managed {
 		s.db, err = badger.OpenManaged(opt)
@@ -530,6 +534,11 @@ func execMvcc(intents []string, st *Stats) (final, outs, oracle []string) {
 				tx.done = true
 			default:
 				emit(line, errKind(err))
+				if err == badger.ErrTxnTooBig && !wasDone {
+					// every Set/Delete of this transaction had been accepted (rejected ones are not
+					// in tx.pending and do not change the transaction)
+					fail("C28-accepted-toobig", fmt.Sprintf("Commit of a transaction whose %d writes were all accepted failed with ErrTxnTooBig", len(tx.pending)))
+				}
 				if err == badger.ErrConflict || len(tx.pending) > 0 {
 					// Commit defers Discard for every path past the precheck
 					if !strings.Contains(err.Error(), "CommitTs cannot be zero") && !strings.Contains(err.Error(), "discarded txn") {
@@ -569,6 +578,18 @@ func execMvcc(intents []string, st *Stats) (final, outs, oracle []string) {
 			s.judgeStable("flush", pre, fail)
 			emit("dump", s.dump())
 			s.judgeStructure(fail)
+		case "waitthr":
+			// wait (bounded) until the dynamic value threshold has risen above the given size
+			want := int64(atou(w[1]))
+			deadline := time.Now().Add(3 * time.Second)
+			for time.Now().Before(deadline) {
+				if _, _, thr := badger.VerifLimits(s.db); thr > want {
+					break
+				}
+				time.Sleep(2 * time.Millisecond)
+			}
+			_, _, thr := badger.VerifLimits(s.db)
+			emit(line, fmt.Sprintf("ok %v", thr > want))
 		case "dropprefix":
 			s.dropPrefix(w[1:], emit, fail)
 		case "dropall":
@@ -1188,7 +1209,42 @@ func genMvcc(rng *rand.Rand, n int, st *Stats) []string {
 
 func pick[T any](rng *rand.Rand, xs ...T) T { return xs[rng.Intn(len(xs))] }
 
+// genPctSession: dynamic value threshold (VLogPercentile > 0). A transaction collects many
+// values that are accounted as value pointers, other transactions then commit larger values so
+// that the threshold rises above them, then the first transaction commits. Judged by the oracle
+// only (the asynchronous threshold is not modelled).
+func genPctSession(rng *rand.Rand, st *Stats) []string {
+	st.Inc("session:vlogpct")
+	ops := []string{fmt.Sprintf("reset managed=0 keep=1 thr=32 inmem=0 levels=4 detect=1 tblsz=2097152 basesz=10485760 comp=0 memsz=1048576 vlogpct=%d", pick(rng, 99, 90, 50))}
+	small := 300 + rng.Intn(900)
+	nA := 200 + rng.Intn(900)
+	ops = append(ops, "begin 1 1 0")
+	for i := 0; i < nA; i++ {
+		v := make([]byte, small)
+		rng.Read(v)
+		ops = append(ops, fmt.Sprintf("set 1 %s 0 0 0 %s 0", hx([]byte(fmt.Sprintf("a%05d", i))), hx(v)))
+	}
+	id := 2
+	big := small*2 + rng.Intn(4000)
+	for i := 0; i < 60+rng.Intn(200); i++ {
+		ops = append(ops, fmt.Sprintf("begin %d 1 0", id))
+		for j := 0; j < 1+rng.Intn(4); j++ {
+			v := make([]byte, big)
+			rng.Read(v)
+			ops = append(ops, fmt.Sprintf("set %d %s 0 0 0 %s 0", id, hx([]byte(fmt.Sprintf("b%05d_%d", i, j))), hx(v)))
+		}
+		ops = append(ops, fmt.Sprintf("commit %d 0", id))
+		id++
+	}
+	ops = append(ops, fmt.Sprintf("waitthr %d", small), "commit 1 0")
+	ops = append(ops, fmt.Sprintf("begin %d 0 0", id), fmt.Sprintf("get %d %s", id, hx([]byte("a00000"))), fmt.Sprintf("discard %d", id))
+	return ops
+}
+
 func genMvccSession(rng *rand.Rand, st *Stats) []string {
+	if params["mode"] == "pct" {
+		return genPctSession(rng, st)
+	}
 	managed := rng.Intn(3) == 0
 	if params["managed"] != "" {
 		managed = params["managed"] == "1"
